@@ -89,6 +89,17 @@ def run(prop, tier, seed, known):
                     for key, w in want.items():
                         if abs(ev[key] - w) > 1e-9:
                             fails.append('perfect beat estimate: %s = %r' % (key, ev[key]))
+                    # the same through evaluate() with a trim time other than the default (both sides are trimmed alike)
+                    for mbt_, sh_ in ((5.5, 0.0), (6.5, 0.0), (8.0, 0.0), (0.0, 3.0), (1.0, 3.0)):
+                        r_ = ref - sh_
+                        if (r_ >= mbt_).sum() < 5:         # non-degenerate: at least 5 beats remain (Goto is 0 by construction below that)
+                            continue
+                        ev3 = guard('beat.evaluate(x, x, min_beat_time=%s)' % mbt_, lambda: beat.evaluate(r_, r_.copy(), min_beat_time=mbt_))
+                        if ev3 is not None:
+                            for key, w in want.items():
+                                if abs(ev3[key] - w) > 1e-9:
+                                    fails.append('perfect beat estimate with min_beat_time=%s: %s = %r (beats from %s, period %s)' % (mbt_, key, ev3[key], r_[0], period))
+                                    break
                 # C08: common offset (binary-exact), all beats stay >= the trim time
                 d = rng.choice([0.125, 1.0, 2.5, 16.0])
                 ev2 = guard('beat.evaluate shifted', lambda: beat.evaluate(ref + d, est + d))
@@ -373,6 +384,19 @@ def run(prop, tier, seed, known):
                 for key, v in pd.items():
                     if not (np.isfinite(v) and v >= -1e-9) or (key not in ('P', 'F') and v > 1 + 1e-9):
                         fails.append('pattern.evaluate[%r] = %r out of range when an estimated occurrence repeats an event' % (key, v))
+            # ---------------------------------------------------------------- multipitch: an exact copy is perfect, whatever order a frame lists its pitches in (C02)
+            nfp_ = rng.randint(1, 4)
+            mtp_ = np.arange(nfp_) * 0.25
+            pool_ = [110.0, 146.83, 220.0, 261.63, 330.0, 440.0, 587.33, 880.0]
+            xfp_ = [np.array(rng.sample(pool_, rng.randint(0, 4))) for _ in range(nfp_)]
+            if any(len(f_) for f_ in xfp_):
+                mp_ = guard('multipitch.evaluate(x, x)', lambda: multipitch.evaluate(mtp_, xfp_, mtp_.copy(), [f_.copy() for f_ in xfp_]))
+                if mp_ is not None:
+                    for key, v in mp_.items():
+                        w_ = 0.0 if 'Error' in key else 1.0
+                        if abs(v - w_) > 1e-9:
+                            fails.append('perfect multipitch estimate: %s = %r (frames %s)' % (key, v, [f_.tolist() for f_ in xfp_]))
+                            break
             # ---------------------------------------------------------------- multipitch: single faults on either side are rejected (C14)
             nfr = rng.randint(1, 4)
             mt = np.arange(nfr) * 0.25
